@@ -221,11 +221,24 @@ def _del_members_annotated_as_initvar(class_: Class) -> None:
             class_.del_member(attribute.name)
 
 
+def _label_dataclass_subclass(class_: Class) -> None:
+    # At least one parent dataclass makes the current class a dataclass
+    # (that's how `dataclasses.is_dataclass` works), whether or not
+    # the class defines its own `__init__` method.
+    try:
+        mro = class_.mro()
+    except ValueError:
+        return
+    if any(_dataclass_decorator(parent.decorators) for parent in mro):
+        class_.labels.add("dataclass")
+
+
 def _apply_recursively(mod_cls: Module | Class, processed: set[str]) -> None:
     if mod_cls.canonical_path in processed:
         return
     processed.add(mod_cls.canonical_path)
     if isinstance(mod_cls, Class):
+        _label_dataclass_subclass(mod_cls)
         if "__init__" not in mod_cls.members:
             _set_dataclass_init(mod_cls)
             _del_members_annotated_as_initvar(mod_cls)
